@@ -454,9 +454,36 @@ func (s *ExecSpec) RunVariant(v int, collect bool) string {
 		c += "\nALIASED: " + a
 	}
 	if collect {
-		if o.RawMap != nil {
+		// hand the issues back through one of the Collect helpers; the combined helper must return the
+		// messages these issues had (they were read above, before anything was freed)
+		switch {
+		case o.RawMap != nil && v%2 == 0:
+			want := map[string][]string{}
+			for k, is := range o.RawMap {
+				for _, i := range is {
+					want[k] = append(want[k], i.Message)
+				}
+			}
+			got := z.Issues.SanitizeMapAndCollect(o.RawMap)
+			if len(got) != len(want) {
+				c += fmt.Sprintf("\nSANITIZE: %d keys for %d", len(got), len(want))
+			}
+			for k, ms := range want {
+				if fmt.Sprint(got[k]) != fmt.Sprint(ms) {
+					c += fmt.Sprintf("\nSANITIZE: SanitizeMapAndCollect[%q] = %q, the issues said %q", k, got[k], ms)
+				}
+			}
+		case o.RawMap != nil:
 			z.Issues.CollectMap(o.RawMap)
-		} else if o.RawList != nil {
+		case o.RawList != nil && v%2 == 0:
+			var want []string
+			for _, i := range o.RawList {
+				want = append(want, i.Message)
+			}
+			if got := z.Issues.SanitizeListAndCollect(o.RawList); fmt.Sprint(got) != fmt.Sprint(want) {
+				c += fmt.Sprintf("\nSANITIZE: SanitizeListAndCollect = %q, the issues said %q", got, want)
+			}
+		case o.RawList != nil:
 			z.Issues.CollectList(o.RawList)
 		}
 	}
